@@ -1,6 +1,8 @@
 package main
 
 import (
+	"sync"
+	"runtime"
 	"bufio"
 	"runtime/debug"
 	"crypto/sha1"
@@ -43,7 +45,49 @@ type Result struct {
 	Extra              map[string]interface{} `json:"extra,omitempty"`
 }
 
+// runDriver feeds the cases to the extracted model, one per line. The lines are independent, so large batches are split
+// over several driver processes.
 func runDriver(driver string, lines []string, dir, name string) ([]string, error) {
+	parts := 1
+	if len(lines) >= 400 {
+		parts = runtime.NumCPU()
+		if parts > 8 {
+			parts = 8
+		}
+	}
+	if parts <= 1 {
+		return runDriverOne(driver, lines, dir, name)
+	}
+	outs := make([][]string, parts)
+	errs := make([]error, parts)
+	var wg sync.WaitGroup
+	per := (len(lines) + parts - 1) / parts
+	for k := 0; k < parts; k++ {
+		lo, hi := k*per, (k+1)*per
+		if lo > len(lines) {
+			lo = len(lines)
+		}
+		if hi > len(lines) {
+			hi = len(lines)
+		}
+		wg.Add(1)
+		go func(k, lo, hi int) {
+			defer wg.Done()
+			outs[k], errs[k] = runDriverOne(driver, lines[lo:hi], dir, fmt.Sprintf("%s-%d", name, k))
+		}(k, lo, hi)
+	}
+	wg.Wait()
+	var all []string
+	for k := 0; k < parts; k++ {
+		if errs[k] != nil {
+			return nil, errs[k]
+		}
+		all = append(all, outs[k]...)
+	}
+	return all, nil
+}
+
+func runDriverOne(driver string, lines []string, dir, name string) ([]string, error) {
 	in := filepath.Join(dir, name+".cases")
 	f, err := os.Create(in)
 	if err != nil {
